@@ -52,6 +52,7 @@ struct Val {
   // byte-function linkage: this value == ByteFns[tbl].val[b] where b is the low byte of SSA value tsrc
   // (version tver, frame depth tdepth).  Created by tabulated pure calls and loads from constant byte-indexed tables.
   int tbl = -1; const Value *tsrc = nullptr; unsigned tver = 0; unsigned tdepth = 0;
+  bool ambient = false;             // the caller's errno, read before this call stored to it (harmless while it is only saved and restored)
 
   static Val top(unsigned w, uint8_t prov = 0) {
     Val v; v.k = INT; v.w = w; v.r = ConstantRange::getFull(w); v.kb = KnownBits(w); v.prov = prov; return v;
